@@ -2,6 +2,7 @@ package rpcprops
 
 import (
 	"fmt"
+	"github.com/TarsCloud/TarsGo/tars"
 	"strconv"
 	"strings"
 	"testing"
@@ -13,7 +14,7 @@ import (
 	"verif/harness/stat"
 )
 
-const C10Rule = "Raw client (reference codec) against in-process servers in generated configurations {tcp|udp, worker pool 0/1/3, handle timeout 0/300 ms, servant with/without context}; case = 1..24 requests pipelined over 1..3 connections through a generated chunking of the byte stream: version TARS(1)/TUP(3)/JSON(5) with arguments encoded for that version, two-way or one-way, arbitrary non-zero ids (negatives included, duplicates across connections), function = generated function | tars_ping | unknown name, iTimeout 0/large (tiny only in the queue-timeout scenario), scripted servant outcome (values, *tars.Error, plain error, sleep). Scenarios: mixed; queue-timeout (pool 1, first request sleeps 150 ms, later ones carry iTimeout <= 50 ms); handle-timeout (handle timeout 300 ms, slow handlers sleep 1200 ms). Oracle per connection: exactly one reply per two-way request and none per one-way (awaited until all handlers finished + grace), carrying the request's id, version and packet type; replies decode strictly (ResponsePacket, or RequestPacket form for TUP); ping => ret 0 and no invocation; error => code (1 for plain errors) and message (TUP: STATUS_RESULT_CODE/DESC in the status map); queue timeout => -6 and no invocation; slow handler => non-zero timeout reply; success => scripted values decoded per version; servant invoked exactly once per executed call. Non-trivial = >=2 versions and >=1 one-way and >=1 error/timeout outcome on a pipelined connection. Distinct = distinct case JSON."
+const C10Rule = "Raw client (reference codec) against in-process servers in generated configurations {tcp|udp, worker pool 0/1/3, handle timeout 0/300 ms, servant with/without context, in a third of the cases pass-through server filters registered (legacy single / pre+post / middleware chain)}; case = 1..24 requests pipelined over 1..3 connections through a generated chunking of the byte stream: version TARS(1)/TUP(3)/JSON(5) with arguments encoded for that version, two-way or one-way, arbitrary non-zero ids (negatives included, duplicates across connections), function = generated function | tars_ping | unknown name, iTimeout 0/large (tiny only in the queue-timeout scenario), scripted servant outcome (values, *tars.Error, plain error, sleep). Scenarios: mixed; queue-timeout (pool 1, first request sleeps 150 ms, later ones carry iTimeout <= 50 ms); handle-timeout (handle timeout 300 ms, slow handlers sleep 1200 ms). Oracle per connection: exactly one reply per two-way request and none per one-way (awaited until all handlers finished + grace), carrying the request's id, version and packet type; replies decode strictly (ResponsePacket, or RequestPacket form for TUP); ping => ret 0 and no invocation; error => code (1 for plain errors) and message (TUP: STATUS_RESULT_CODE/DESC in the status map); queue timeout => -6 and no invocation; slow handler => non-zero timeout reply; success => scripted values decoded per version; servant invoked exactly once per executed call. Non-trivial = >=2 versions and >=1 one-way and >=1 error/timeout outcome on a pipelined connection. Distinct = distinct case JSON."
 
 type C10Req struct {
 	Conn     int      `json:"conn"`
@@ -37,6 +38,9 @@ type C10Case struct {
 	NConns        int      `json:"n_conns"`
 	Chunks        []int    `json:"chunks"`
 	Reqs          []C10Req `json:"reqs"`
+	// ServerFilters: pass-through server filters registered while the case runs (they must
+	// not change what the server answers)
+	ServerFilters SideFilters `json:"server_filters"`
 }
 
 const (
@@ -60,6 +64,10 @@ func (e *Env) DrawC10(rt *rapid.T) C10Case {
 	c.Proto = rapid.SampledFrom([]string{"tcp", "tcp", "tcp", "udp"}).Draw(rt, "proto")
 	c.MaxInvoke = rapid.SampledFrom([]int32{0, 1, 3}).Draw(rt, "pool")
 	c.NConns = rapid.IntRange(1, 3).Draw(rt, "nconns")
+	c.ServerFilters = SideFilters{Kind: "none"}
+	if rapid.IntRange(0, 2).Draw(rt, "filters") == 0 {
+		c.ServerFilters = drawSide(rt, "server")
+	}
 	maxReq := 24
 	switch c.Scenario {
 	case "queue-timeout":
@@ -224,6 +232,10 @@ func (e *Env) runC10Once(c C10Case) *stat.Failure {
 		return stat.Failf("harness-failure", "server setup: %v", err)
 	}
 	e.Hub.Reset()
+	if c.ServerFilters.Kind != "" && c.ServerFilters.Kind != "none" {
+		installFilters(SideFilters{Kind: "none"}, c.ServerFilters)
+		defer tars.VerifResetFilters()
+	}
 	model := e.c10Model(c)
 	totalSleep := 0
 	for i, r := range c.Reqs {
@@ -534,6 +546,9 @@ func (e *Env) RunC10(t *testing.T, st *stat.Stats, name string, quick, thorough 
 			}
 		}
 		cls := []string{"scenario-" + c.Scenario, "proto-" + c.Proto, fmt.Sprintf("pool-%d", c.MaxInvoke)}
+		if k := c.ServerFilters.Kind; k != "" && k != "none" {
+			cls = append(cls, "server-filters-"+k)
+		}
 		if c.WithContext {
 			cls = append(cls, "with-context")
 		}
